@@ -13,7 +13,7 @@ import tempfile
 HERE = os.path.dirname(os.path.dirname(os.path.abspath(__file__)))
 tier = sys.argv[1] if len(sys.argv) > 1 else 'quick'
 only = set(sys.argv[2:])
-EXTRA = {'C04-1': ['C14'], 'C09-3': ['C18'], 'C16-1': ['C12'], 'C14-1': ['C04']}
+EXTRA = {'C04-1': ['C14'], 'C09-3': ['C18'], 'C16-1': ['C12'], 'C14-1': ['C04'], 'C09-14': ['C14'], 'C17-12': ['C15'], 'C18-13': ['C09']}
 for path in sorted(glob.glob(os.path.join(HERE, 'seeded', '*', 'meta.json'))):
     meta = json.load(open(path))
     sid = meta['id']
@@ -27,6 +27,11 @@ for path in sorted(glob.glob(os.path.join(HERE, 'seeded', '*', 'meta.json'))):
             break
     meta['summary'] = title
     rec = meta.get('reconfirmed')
+    if rec and not rec.get('still_breaks') and rec.get('demo_exit_clean_tree') and not meta.get('harmless_after'):
+        # the demonstration itself no longer holds on the clean tree (it expected behaviour that a later fix: commit changed, or its
+        # stubs lack something the repaired code uses): it cannot tell whether the change still breaks the property, the check decides
+        meta['demo_outdated'] = 'demonstration differs on the clean tree at %s; judged by the check only' % rec.get('head')
+        rec = None
     if rec and not rec.get('still_breaks'):
         # a later fix: commit in /repo removed the mechanism this change relied on: it no longer breaks the property on the current base
         meta[tier] = 'n/a'
